@@ -269,6 +269,7 @@ def check_C07(ctx):
         sany(ctx, m)
     cases = framing_cases(ctx, "SmallKinds", 4 if thorough else 3)
     cases += framing_cases(ctx, "AllKinds", 3 if thorough else 2)
+    cases += framing_cases(ctx, "RandKinds", 3, liveness=False, rand=0)      # seed-drawn versions and headers
     summ = harness(ctx, ["framing", "replay", "--prop", "C07", "--spellings", "3" if thorough else "2"],
                    stdin_lines=cases, name="framing-c07", timeout=3600)
     report_mismatches(ctx, summ, "a specialised decoder disagrees with Beatmap / with the projection the spec states")
